@@ -42,15 +42,23 @@ theorem delSubsLoop_isErr (st : St) (c : Option Session) (ids : List Nat) :
             obtain ⟨a, b⟩ := p
             by_cases h : cs.token = o <;> simp [isErr, h]
 
-theorem itemLoop_isErr (st : St) (c : Option Session) (site : Site) (ids : List Nat) :
-    isErr (itemLoop st c site ids) = !(ids.all fun id => c.isSome && itemOk st id) := by
+theorem itemLoop_isErr (st : St) (c : Option Session) (site : Site) (u m : Bool) (ids : List Nat) :
+    isErr (itemLoop st c site u m ids) =
+      !(ids.all fun id => match findItem st id with
+                          | none => u
+                          | some _ => c.isSome && itemOk st id) := by
   induction ids with
   | nil => rfl
   | cons i rest ih =>
     unfold itemLoop
     rw [List.all_cons, Bool.not_and, ← ih]
     cases hf : findItem st i with
-    | none => simp [isErr, itemOk, hf]
+    | none =>
+      cases u with
+      | false => simp [isErr]
+      | true =>
+        simp only [if_true, Bool.not_true, Bool.false_or]
+        cases itemLoop st c site true m rest <;> rfl
     | some it =>
       simp only []
       cases hs : findSub st it.sub with
@@ -65,7 +73,7 @@ theorem itemLoop_isErr (st : St) (c : Option Session) (site : Site) (ids : List 
           | some cs =>
             have hh : ((some cs).isSome && itemOk st i) = true := by simp [itemOk, hf, subOwned, hs]
             rw [hh]
-            cases itemLoop st (some cs) site rest <;> rfl
+            cases itemLoop st (some cs) site u m rest <;> rfl
 
 theorem deleteLoop_panics (fuel : Nat) (l : List Nat) (n : Nat) (hn : 0 < n)
     (hf : l.length < fuel + n) (h0 : 0 < fuel) : deleteLoop fuel l n = none := by
